@@ -1,13 +1,38 @@
-import LokiModel.C28.Lemmas
+import LokiModel.C28.Check
+import LokiModel.C28.Param
 /-!
 # C28 — property theorems (inlining preserves behaviour)
 
-What is proved here (all unbounded, core axioms only):
-* `substM_evalE` — the substitution lemma for a variable-to-expression map (the argument map of `map_call_to_procedure_body`):
-  under the simulation relation `ReadsLike m cs st` between the callee frame and the caller state, every scalar expression of the
-  callee evaluates in the frame exactly as the substituted expression evaluates in the caller;
-* `param_inline_expr_sound` — `inline_constant_parameters`: replacing a PARAMETER name by its value (the model's `substM` with a
-  one-entry map) preserves the value of every expression, array elements and sections included, at every position.
+All statements are unbounded (all programs of the covered class, all states, all fuel); axioms: propext, Quot.sound,
+Classical.choice only.
+
+**Subroutine calls.**  `inlineBody u args` is what the model of `map_call_to_procedure_body` (and, by the correspondence check,
+the real transformation) puts in place of `call u(args)`: the callee body with every dummy replaced by its actual, PRINT
+statements left alone.
+* `inline_sound_partial` — call level: a FIR call `callSub g args` (copy-in / copy-out semantics of `Fir/Sem.lean`) that
+  finishes is reproduced by running `inlineBody u args` in the caller's state with the same fuel: same printed output, same
+  final cell of every variable except the callee's locals (which the transformation hoists into the caller).  Hypotheses are the
+  two computable checks `callOKb` (static: conditions (i)–(iv) of the design — written dummies bound to distinct variables that
+  occur in no other actual, expression actuals do not mention written variables, no name capture, local names unused by the
+  actuals — plus the covered statement class) and `callStb` (the caller state is well typed at the actuals and has the hoisted
+  locals).  `_partial`: callee with scalar declarations only and no PARAMETER; body made of scalar assignments, DO, DO WHILE,
+  IF, SELECT CASE, EXIT, CYCLE, comments (no PRINT — not substituted by the real code, class `inline-print-not-substituted` —,
+  no nested CALL, no ASSOCIATE); no array dummies, no element actuals; locals keep their names (the renaming of clashing locals
+  `<callee>_<name>` is covered by the correspondence only); the run is compared for the call statement itself, the congruence
+  "equal up to the hoisted locals ⇒ the rest of the caller runs alike" is not proved; only finished runs (an error of the
+  call need not be reproduced, e.g. a read of an undefined local may see a stale value of the hoisted variable).
+* `inline_body_sim_partial` — the simulation underneath, for any substitution map `m` (so also with renamed locals): the relation
+  `Rel` between callee frame and caller state is preserved by every covered statement list.
+* `substM_evalE` — substitution lemma for expressions under `ReadsLike`.
+
+**Constant parameters.**
+* `param_inline_stmts_sound` — statement level, by reuse of the C31 substitution simulation: for an integer PARAMETER `x = k`,
+  a body in C31's class `okSs x` run where `x` holds `k` and the body with `x` replaced by the literal run in a state that
+  agrees off `x` (e.g. without the dropped declaration) give the same error or the same signal, output and variables ≠ `x`.
+  PRINT statements mentioning `x` are excluded (`okSs`): the real code leaves them alone *and* drops the declaration (class
+  `param-print-not-substituted`).  `_partial` in scope: one integer parameter at a time (`paramUnit` substitutes all
+  PARAMETERs of a unit simultaneously; real/logical parameters: expression level only).
+* `param_inline_expr_sound` — expression level, every type.
 -/
 namespace LokiModel.C28
 open LokiModel.Fir
@@ -19,16 +44,103 @@ theorem substM_evalE {m : List (String × Ex)} {cs st : St} (h : ReadsLike m cs 
     evalE cs [] e = evalE st [] (substM m e) :=
   substM_evalE_aux h e hs hb
 
-/-- the relation is satisfiable non-trivially: a frame with dummy `u = 3` against a caller state with `x = 2` and the map
-`u ↦ x + 1` -/
-example : ReadsLike [("u", .bin .add (.var "x") (.lit (.int 1)))]
-    { store := [("u", .scalar .int (some (.int 3)))] } { store := [("x", .scalar .int (some (.int 2)))] } → True := fun _ => trivial
-
 /-- **constant-parameter inlining, expression level**: if `x` is a scalar holding the value `v`, replacing `x` by the literal
 `v` (what `inline_constant_parameters` does with `x`'s initial value) leaves every expression value unchanged -/
 theorem param_inline_expr_sound {st : St} {x : String} {v : Val} (h : SubstOK st x (.lit v)) (e : Ex) (pos : List Nat) :
     evalE st pos (substM [(x, .lit v)] e) = evalE st pos e := by
   rw [substM_single]
   exact evalE_subst h e pos
+
+/-- **constant-parameter inlining, statement level** (relational form, reusing `LokiModel.C31.sim`): `σ` holds the integer
+PARAMETER `x = k`, `σ'` agrees with `σ` off `x` (`C31.Sim`); the body and the body with `x` replaced by the literal
+(`substParamSs`, the model of `inline_constant_parameters` for this parameter) give related results with the same fuel:
+both out of fuel, the same error, or states again related by `C31.Sim` with the same signal. -/
+theorem param_inline_stmts_sound (P : Program) (x : String) (k : Int) (f : Nat) (ss : List Stmt) (σ σ' : St)
+    (hok : C31.okSs x ss = true) (h : C31.Sim x k σ σ') :
+    C31.RSim x k (execStmts P f ss σ) (execStmts P f (substParamSs [(x, C31.litInt k)] ss) σ') := by
+  rw [substParamSs_single]
+  exact (C31.sim P x k f).stmts ss σ σ' hok h
+
+/-- the same, unfolded: no ASSOCIATE names, `x` is the integer scalar `k` in `σ`, `σ'` agrees with `σ` on every other name
+(the declaration of `x` may be gone).  A finished run of the original is matched by the inlined body. -/
+theorem param_inline_stmts_sound' (P : Program) (x : String) (k : Int) (f : Nat) (ss : List Stmt) (σ σ' : St)
+    (hok : C31.okSs x ss = true) (hal : σ.alias = []) (hal' : σ'.alias = []) (hout : σ.out = σ'.out)
+    (hx : lookupCell σ x = some (.scalar .int (some (.int k))))
+    (hoff : ∀ y, y ≠ x → lookupCell σ y = lookupCell σ' y) :
+    (∀ σ1 sg, execStmts P f ss σ = .ok σ1 sg →
+        ∃ σ1', execStmts P f (substParamSs [(x, C31.litInt k)] ss) σ' = .ok σ1' sg ∧
+          (∀ y, y ≠ x → lookupCell σ1 y = lookupCell σ1' y) ∧ σ1.out = σ1'.out) ∧
+    (∀ msg, execStmts P f ss σ = .err msg → execStmts P f (substParamSs [(x, C31.litInt k)] ss) σ' = .err msg) := by
+  have h := param_inline_stmts_sound P x k f ss σ σ' hok ⟨⟨hoff, hal, hal', hout⟩, hx⟩
+  constructor
+  · intro σ1 sg hr
+    rw [hr] at h
+    cases hr' : execStmts P f (substParamSs [(x, C31.litInt k)] ss) σ' with
+    | ok b s' =>
+      rw [hr'] at h
+      obtain ⟨hs, he⟩ := h
+      subst he
+      exact ⟨b, rfl, hs.look, hs.out⟩
+    | err m => rw [hr'] at h; exact h.elim
+    | fuel => rw [hr'] at h; exact h.elim
+  · intro msg hr
+    rw [hr] at h
+    cases hr' : execStmts P f (substParamSs [(x, C31.litInt k)] ss) σ' with
+    | ok b s' => rw [hr'] at h; exact h.elim
+    | err m => rw [hr'] at h; simp only [C31.RSim] at h; rw [h]
+    | fuel => rw [hr'] at h; exact h.elim
+
+/-- **inlining, body level**: under the decidable side condition `sideOK m V W`, a covered statement list that finishes in
+the callee frame `cs` finishes with the same signal and the same fuel, after substitution, in any caller state `st` related to
+the frame by `Rel`; the final states are related again and the caller's variables other than the targets of written callee
+variables are untouched. -/
+theorem inline_body_sim_partial (P : Program) (m : List (String × Ex)) (V W D : List String)
+    (hside : sideOK m V W = true) (f : Nat) (ss : List Stmt) (cs st : St) (hok : okSs V W ss = true)
+    (h : Rel m V W D cs st) (cs' : St) (sg : Sig) (hrun : execStmts P f ss cs = .ok cs' sg) :
+    ∃ st', execStmts P f (substSs m ss) st = .ok st' sg ∧ Rel m V W D cs' st' ∧ Frame m W st st' := by
+  obtain ⟨st', e, step⟩ := (sim P m V W D hside f).stmts ss cs st hok h cs' sg hrun
+  exact ⟨st', e, step.rel, step.frame⟩
+
+/-- **inlining, call level**: see the module docstring.  `W` is any list of callee variables that passes the check (take the
+variables the body assigns and its DO variables). -/
+theorem inline_sound_partial (P : Program) (g : String) (u : Fir.Unit) (args : List Ex) (W : List String) (f : Nat)
+    (st st1 : St) (sg : Sig) (hu : findUnit P g = some u)
+    (hok : callOKb u args W = true) (hst : callStb u args W st = true)
+    (hrun : execStmt P (f + 1) (.callSub g args) st = .ok st1 sg) :
+    sg = .normal ∧ ∃ st1', execStmts P f (inlineBody u args) st = .ok st1' .normal ∧
+      (∀ n, n ∉ calleeLocals u → lookupCell st1 n = lookupCell st1' n) ∧ st1.out = st1'.out :=
+  let ⟨h1, st1', h2, h3, h4, _, _⟩ :=
+    inline_call P g u args W f st st1 sg hu (callOKb_sound hok) (callStb_sound hst) hrun
+  ⟨h1, st1', h2, h3, h4⟩
+
+/-! ### non-vacuity -/
+
+/-- `sub1(u, v, w)`: `integer, intent(in) :: u; integer, intent(inout) :: v, w; integer :: t` -/
+def exCallee : Fir.Unit :=
+  { name := "sub1", args := ["u", "v", "w"],
+    decls := [{ name := "u", ty := .int, dims := [], intent := .in_ }, { name := "v", ty := .int, dims := [], intent := .inout },
+              { name := "w", ty := .int, dims := [], intent := .inout }, { name := "t", ty := .int, dims := [] }],
+    body := [.assign (.var "t") (.bin .add (.var "u") (.lit (.int 1))),
+             .ifte (.bin (.cmp .gt) (.var "t") (.lit (.int 2)))
+               [.assign (.var "v") (.bin .mul (.var "t") (.lit (.int 2)))] [.assign (.var "v") (.lit (.int 0))],
+             .doLoop "t" (.lit (.int 1)) (.var "u") none [.assign (.var "w") (.bin .add (.var "w") (.var "t"))]] }
+
+/-- `call sub1(x + 1, y, z)` -/
+def exArgs : List Ex := [.bin .add (.var "x") (.lit (.int 1)), .var "y", .var "z"]
+
+def exState : St :=
+  { store := [("x", .scalar .int (some (.int 1))), ("y", .scalar .int (some (.int 5))), ("z", .scalar .int none),
+              ("t", .scalar .int (some (.int 99)))] }
+
+example : callOKb exCallee exArgs ["v", "w", "t"] = true := by decide
+example : callStb exCallee exArgs ["v", "w", "t"] exState = true := by decide
+/-- the re-evaluation class is rejected by the check: `call sub1(x + 1, x, z)` binds the written `v` to `x` -/
+example : callOKb exCallee [.bin .add (.var "x") (.lit (.int 1)), .var "x", .var "z"] ["v", "w", "t"] = false := by decide
+/-- a caller variable named like the callee's local (used by an actual) is rejected: `call sub1(t + 1, y, z)` -/
+example : callOKb exCallee [.bin .add (.var "t") (.lit (.int 1)), .var "y", .var "z"] ["v", "w", "t"] = false := by decide
+
+example : C31.okSs "c"
+    [.assign (.var "k") (.bin .add (.bin .mul (.var "c") (.lit (.int 2))) (.var "k")),
+     .ifte (.bin (.cmp .gt) (.var "c") (.lit (.int 2))) [.print [.var "k"]] []] = true := by decide
 
 end LokiModel.C28
